@@ -286,7 +286,10 @@ def directive_events():
                   '+ELLIPSIS', '-ELLIPSIS',
                   # several conditions in one directive, met ones before and after unmet ones
                   '+REQUIRES(%s, %s)' % (gd.MET, gd.UNMET_A), '+REQUIRES(%s, %s)' % (gd.UNMET_A, gd.MET),
-                  '-REQUIRES(%s, %s)' % (gd.MET, gd.UNMET_A)):
+                  '-REQUIRES(%s, %s)' % (gd.MET, gd.UNMET_A),
+                  # TWO unmet conditions in one directive: each becomes pending / is withdrawn on its own
+                  '+REQUIRES(%s, %s)' % (gd.UNMET_A, gd.UNMET_B), '-REQUIRES(%s, %s)' % (gd.UNMET_A, gd.UNMET_B),
+                  '-REQUIRES(%s, %s)' % (gd.UNMET_B, gd.UNMET_A)):
             ev.append((where, d))
     return ev
 
